@@ -552,16 +552,22 @@ def rounds_session(g):
         # announced (V9), or a cut packet
         bad = r.choice([g.v9_hdr(1) + g.set_(999, g.rbytes(8)), g.fixed(5, 2)[:-5], g.ix_msg([g.set_(2, b16(300) + b16(1) + b16(1) + b16(4))])[:-3]])
         pks.append((0, bad))
-    ops += ops_reset(("W", "S", "F", "T"))
+    ops += ops_reset(("W", "S", "F", "T", "G"))
     ops.append(call("W", [x for _, pk in pks for x in pk]))
     ops.append(call("T", [x for _, pk in pks for x in pk]))
-    for grp in cuts(g, len(pks)):
-        ops.append(call("S", [x for i in grp for x in pks[i][1]]))
-    for _, pk in pks:
-        ops.append(call("F", pk))
+    # S (random groups), F and G (one packet per call) run out of phase with each other: the calls of the three
+    # parsers are merged in a random order that keeps each parser's own order (parsers share nothing, C06)
+    seqs = [[call("S", [x for i in grp for x in pks[i][1]]) for grp in cuts(g, len(pks))],
+            [call("F", pk) for _, pk in pks], [call("G", pk) for _, pk in pks]]
+    while any(seqs):
+        q = r.choice([q for q in seqs if q])
+        for _ in range(r.choice([1, 1, 2, 3])):
+            if q:
+                ops.append(q.pop(0))
     ops.append({"op": "round", "kind": "chain", "a": "W", "b": "F", "c": ""})
     ops.append({"op": "round", "kind": "chain", "a": "S", "b": "F", "c": ""})
     ops.append({"op": "round", "kind": "twins", "a": "W", "b": "T", "c": ""})
+    ops.append({"op": "round", "kind": "twins", "a": "F", "b": "G", "c": ""})
     # ---- filter (C12)
     ex9, ex10 = Exporter(g, "v9"), Exporter(g, "ipfix")
     hist = packet_sequence(g, r.choice([0, 2, 4]), ex9, ex10)
